@@ -729,14 +729,17 @@ fn c11(seed: u64, n: usize, out: &mut Out, oracle_only: bool) {
         let irj = if s.label == "generated" { s.input.clone() } else { json!({"src": s.input}) };
         emit_index_tie(out, &s.label, &irj, &s.ir, s.features >= 2);
         // mutants
-        let k = if s.label == "generated" { 3 } else { 6 };
+        let k = if s.label == "generated" { 1 } else { 6 };
         for _ in 0..k {
             let mut q = s.ir.clone();
             let mut labels = vec![];
             let rounds = 1 + rng.below(2);
             for _ in 0..rounds {
-                if let Some(l) = mutate(&mut rng, &mut q) {
-                    labels.push(l);
+                for _attempt in 0..5 {
+                    if let Some(l) = mutate(&mut rng, &mut q) {
+                        labels.push(l);
+                        break;
+                    }
                 }
             }
             if labels.is_empty() || q == s.ir {
